@@ -174,7 +174,7 @@ func(v *@Type) RuntimeDoc(names ...string) ([]string, bool) {
 
 					_, fieldDoc := c.Doc(f)
 
-					if _, ok := f.Type().(*types.Struct); ok {
+					if _, ok := types.Unalias(f.Type()).(*types.Struct); ok {
 						c.Logger().Warn(fmt.Errorf("skip inline struct in %s", named))
 						continue
 					}
@@ -186,7 +186,7 @@ func(v *@Type) RuntimeDoc(names ...string) ([]string, bool) {
 						}
 					}
 
-					if sub, ok := f.Type().(*types.Named); ok {
+					if sub, ok := types.Unalias(f.Type()).(*types.Named); ok {
 						if isCustomDefinedNamed(sub) && sub.Obj().Pkg().Path() == named.Obj().Pkg().Path() {
 							defers = append(defers, named)
 						}
@@ -222,7 +222,7 @@ case @fieldName:
 							prefix = fieldDoc[0]
 						}
 
-						if _, ok := f.Type().(*types.Pointer); ok {
+						if _, ok := types.Unalias(f.Type()).(*types.Pointer); ok {
 							if !yield(snippet.T(`
 if doc, ok := runtimeDoc(v.@fieldName, @prefix, names...); ok  {
 	return doc, ok
